@@ -22,6 +22,17 @@ pub const SIGMA_A: [&str; 14] = [" ", "a", "1", "é", "'", "\"", "`", "\\", "$",
 pub const SIGMA_B: [&str; 14] = ["{", "}", ",", ".", "*", "~", "<", ";", "#", "=", "+", "^", "1", "a"];
 /// the characters of A and B that interact across the two alphabets (`${a`, `"${`, `~{`, `$(`, `{$a,`): expansions x braces x quotes
 pub const SIGMA_C: [&str; 14] = ["$", "{", "}", "a", "1", "`", "\"", "'", "\\", "(", ")", "*", "~", " "];
+/// brace groups x escapes: a small alphabet so that longer words are reached (`{,}\\`, `{a,\}`, `{..\`, `"{,}`)
+pub const SIGMA_D: [&str; 8] = ["{", "}", ",", "\\", "a", ".", "\"", "1"];
+
+fn alpha_of(a: &str) -> Vec<&'static str> {
+    match a {
+        "A" => SIGMA_A.to_vec(),
+        "B" => SIGMA_B.to_vec(),
+        "C" => SIGMA_C.to_vec(),
+        _ => SIGMA_D.to_vec(),
+    }
+}
 
 fn note(acc: &mut Acc, stage: &str, case: &str, r: Result<(), String>) {
     if let Err(p) = r {
@@ -244,6 +255,11 @@ pub fn run(ctx: &Ctx) -> Value {
             plan.push(Level::Script(len));
         }
     }
+    // alphabet D is small: its words go two characters further (escaped backslash after a brace group is 5 characters)
+    for len in 1..=5 {
+        plan.push(Level::Pure("D", len));
+        plan.push(Level::Plan("D", len, vec![0]));
+    }
     if ctx.thorough() {
         plan.push(Level::Plan("A", 4, all.clone()));
         plan.push(Level::Plan("B", 4, all.clone()));
@@ -254,6 +270,9 @@ pub fn run(ctx: &Ctx) -> Value {
         plan.push(Level::Script(5));
         plan.push(Level::Plan("A", 5, all.clone()));
         plan.push(Level::Plan("B", 5, all.clone()));
+        plan.push(Level::Plan("D", 6, vec![0]));
+        plan.push(Level::Pure("D", 6));
+        plan.push(Level::Plan("D", 7, vec![0]));
         plan.push(Level::Pure("A", 6));
         plan.push(Level::Pure("B", 6));
     } else {
@@ -289,14 +308,15 @@ pub fn run(ctx: &Ctx) -> Value {
         }
         let r = match lv {
             Level::Pure(a, len) => {
-                let alpha = if a == "A" { SIGMA_A } else if a == "B" { SIGMA_B } else { SIGMA_C };
+                let alpha = alpha_of(a);
                 explore::par_sweep(move || explore::strings_of_len(&alpha, len), pure_stages, &mk(format!("pure{}{}", a, len)))
             }
             Level::Plan(a, len, envs) => {
-                let alpha = if a == "A" { SIGMA_A } else if a == "B" { SIGMA_B } else { SIGMA_C };
+                let alpha = alpha_of(a);
                 explore::par_sweep(
                     move || {
                         let envs = envs.clone();
+                        let alpha = alpha.clone();
                         Box::new(envs.into_iter().flat_map(move |k| explore::strings_of_len(&alpha, len).map(move |s| (k, s))))
                     },
                     plan_stage,
@@ -314,6 +334,6 @@ pub fn run(ctx: &Ctx) -> Value {
     }
     let mut out = total.to_json();
     out["levels"] = json!(levels);
-    out["alphabets"] = json!({"A": SIGMA_A, "B": SIGMA_B, "C": SIGMA_C, "script_lines": SCRIPT_LINES});
+    out["alphabets"] = json!({"A": SIGMA_A, "B": SIGMA_B, "C": SIGMA_C, "D": SIGMA_D, "script_lines": SCRIPT_LINES});
     out
 }
